@@ -189,7 +189,7 @@ def r2(ctx):
     t = pretty(lp["body"])
     ctx.check("R10.2", "starts-from-first-member", "let weight = weights.remove(0)" in t and "biases.remove(0)" in t, "accumulator-start", c.loc(fn, lp), "weight = weights.remove(0)")
     # R10.3
-    check_acc_dispatch(ctx, "R10.3", fn, ms[0], "coupling", allow_unimplemented=("Overwrite",))
+    check_acc_dispatch(ctx, "R10.3", fn, ms[0], "coupling", allow_unimplemented=("Overwrite",), mean_div_ok=lambda b: True)  # divisor checked below (count)
     scr = strip(ms[0]["scrut"])
     ctx.check("R10.3", "dispatch-on-accumulation", scr.get("k") == "field" and scr["f"] == "accumulation", "dispatch-field:" + pretty(scr), c.loc(fn, ms[0]), "match self.accumulation")
     # both weights and biases are combined in every arm; Mean divides by count
@@ -237,11 +237,44 @@ def r4(ctx):
         ctx.check("R10.4", "summed", len(adds) == 1, "parameter-sum", c.loc(fn), "parameters += ..")
 
 
+def r4b(ctx):
+    """the network-level count delegates to each payload's own parameters(): a block is counted by Feedback::parameters (once per shared layer)"""
+    c = ctx.crate
+    fn = ctx.fn("network::Layer::parameters")
+    ms = [x for x in walk(fn["body"]) if x.get("k") == "match"]
+    if len(ms) != 1:
+        raise Unestablished("Layer::parameters: expected one match on the layer kind", c.loc(fn))
+    seen = set()
+    for arm in ms[0]["arms"]:
+        vp, b = e4.arm_variant(arm)
+        kind = vp.split("::")[-1]
+        seen.add(kind)
+        body = strip(arm["body"])
+        while body is not None and body.get("k") == "blk" and not body["b"]["stmts"]:
+            body = strip(body["b"]["tail"])
+        payload = {"Dense": "dense::Dense", "Convolution": "convolution::Convolution", "Deconvolution": "deconvolution::Deconvolution",
+                   "Feedback": "feedback::Feedback"}.get(kind)
+        if payload is not None:
+            ok = (body is not None and body.get("k") == "mcall" and body["callee"] == payload + "::parameters" and b and e4.local_hid(body["recv"]) == b[0][1])
+            ctx.check("R10.4", "network-count-delegates:" + kind, ok, "layer-count:" + short(pretty(body), 60), c.loc(fn, arm["body"]), "%s => payload.parameters()" % kind,
+                      "Layer::parameters counts a %s layer as `%s`; a feedback block must be counted by Feedback::parameters (each shared parameter once), "
+                      "other layers by their own parameters()" % (kind, short(pretty(body), 100)))
+        elif kind == "Maxpool":
+            ctx.check("R10.4", "network-count-delegates:Maxpool", e4.lit_value(body) == "0", "layer-count:" + short(pretty(body), 40), c.loc(fn, arm["body"]), "Maxpool => 0")
+    for v in c.adts["network::Layer"]["variants"]:
+        if v["name"] not in seen:
+            ctx.bad("R10.4", "network-count-delegates:" + v["name"], "variant-not-counted", c.loc(fn), "")
+    # Network::parameters / Display sum Layer::parameters over self.layers
+    users = [p_ for p_, f_ in c.fns.items() if f_.get("body") is not None and any(cal == "network::Layer::parameters" for _, cal in calls(f_["body"]))]
+    ctx.check("R10.4", "network-count-users", len(users) >= 1, "no-user-of-Layer::parameters", c.loc(fn), "Layer::parameters is what the network reports (%s)" % ",".join(sorted(users)))
+
+
 def run(ctx):
+    ctx.guard("R10.4", "network-count", r4b, ctx)
     ctx.guard("R10.1", "create", r1, ctx)
     ctx.guard("R10.2", "update", r2, ctx)
     ctx.guard("R10.4", "parameters", r4, ctx)
     ctx.floor("R10.1", 4, "")
     ctx.floor("R10.2", 18, "")
     ctx.floor("R10.3", 5 + 1 + 4 + 1, "")
-    ctx.floor("R10.4", 6, "")
+    ctx.floor("R10.4", 12, "")
